@@ -109,8 +109,26 @@ func c07Gen(r *Rand, tier string, scale int, emit func(Fields)) {
 		c.inN = []int{0, 33, 0, 66, 1}[e]
 		add(lcScript{ctx: true, cycles: []lcCycle{c}})
 	}
+	// 6b. sessions through the client's OWN dialer (TCP listener on 127.0.0.1): Config.Timeout small,
+	//     the first connection held longer than that, then reconnects from both origins
+	var tcp []Fields
+	ntcp := 4
+	if tier == "thorough" {
+		ntcp = 10
+	}
+	for i := 0; i < ntcp; i++ {
+		timeout := r.Range(150, 300)
+		f := F("lctcp", timeout, timeout+r.Range(60, 150))
+		ncy := r.Range(2, 3)
+		f = append(f, F(ncy)...)
+		for j := 0; j < ncy; j++ {
+			origin := (i + j) % 2 // both origins in every session
+			f = append(f, F(origin, r.Intn(2), r.Intn(40))...)
+		}
+		tcp = append(tcp, f)
+	}
 	// 7. random fill / thorough product
-	extra := scale - len(scripts)
+	extra := scale - len(scripts) - len(tcp)
 	if tier == "thorough" {
 		extra += scale * 2
 	}
@@ -140,6 +158,7 @@ func c07Gen(r *Rand, tier string, scale int, emit func(Fields)) {
 	for _, sc := range scripts {
 		ins = append(ins, sc.fields())
 	}
+	ins = append(ins, tcp...)
 	lcPrefetch(ins, 12)
 	for _, in := range ins {
 		emit(in)
